@@ -1331,3 +1331,28 @@ Proof.
   intros H. pose proof (wkb_roundtrip_lemma (fun _ => LE) g [] H) as R.
   now rewrite app_nil_r in R.
 Qed.
+
+(* ---- NewPoint: whatever the caller put into the struct, the point meets the representation
+   invariant; a struct that already meets it is stored as given *)
+Section NewPoint.
+  Variable F : Type.
+  Variable zero : F.
+  Variable is_zero : F -> bool.
+  Hypothesis is_zero_zero : is_zero zero = true.
+  Hypothesis is_zero_eq : forall x, is_zero x = true -> x = zero.
+  Lemma new_point_ok_lemma ct (v : vtx F) : point_ok is_zero ct (new_point zero ct v) = true.
+  Proof. unfold new_point. cbn [point_ok]. rewrite ct_eqb_refl. apply (force_vtx_ok F zero is_zero is_zero_zero). Qed.
+  Lemma new_point_fields_lemma ct (v : vtx F) :
+    match point_c (new_point zero ct v) with
+    | Some w => vx w = vx v /\ vy w = vy v /\ vz w = (if has_z ct then vz v else zero) /\ vm w = (if has_m ct then vm v else zero)
+    | None => False
+    end.
+  Proof. unfold new_point, force_vtx; simpl. destruct (has_z ct), (has_m ct); auto. Qed.
+  Lemma new_point_id_lemma ct (v : vtx F) : vtx_ok is_zero ct v = true -> new_point zero ct v = MkPoint ct (Some v).
+  Proof.
+    unfold new_point, vtx_ok, force_vtx. destruct v as [x y z m]; simpl. rewrite andb_true_iff, !orb_true_iff.
+    intros [Hz Hm]. do 3 f_equal.
+    - destruct (has_z ct); auto. destruct Hz as [Hz|Hz]; [discriminate|]. symmetry. now apply is_zero_eq.
+    - destruct (has_m ct); auto. destruct Hm as [Hm|Hm]; [discriminate|]. symmetry. now apply is_zero_eq.
+  Qed.
+End NewPoint.
